@@ -716,6 +716,22 @@ def r7(ctx):
     ctx.floor("C11.R7", 2)
 
 
+def r8(ctx):
+    """what the completion handler is told about a request we declined: net::handle_connection evaluated with a declined session
+    and each closing step failing - the error is the Abort itself or names no document, so that on_sync_via_accept_finished
+    (R3's declined-request rows) releases nothing (= the declined cells of C10.R9)"""
+    from . import netfw
+    sub = type(ctx)(ctx.prop, ctx.tier, ctx.facts, ctx.cfg)
+    netfw.check_accept(sub, "C11.R8")
+    for o in sub.obligations:
+        if "session=declined" in o["key"]:
+            ctx.obligations.append(o)
+            if o["status"] != "holds":
+                ctx.violations.append(o)
+    ctx.analysed_bodies |= sub.analysed_bodies
+    ctx.floor("C11.R8", 4)
+
+
 def run(ctx):
     ctx.run_rule("C11.R1", r1)
     ctx.run_rule("C11.R2", r2)
@@ -724,3 +740,4 @@ def run(ctx):
     ctx.run_rule("C11.R5", r5)
     ctx.run_rule("C11.R6", r6)
     ctx.run_rule("C11.R7", r7)
+    ctx.run_rule("C11.R8", r8)
